@@ -95,10 +95,9 @@ def deps_of(rel, seen=None):
     p = os.path.join(COQ, rel)
     if not os.path.exists(p):
         return seen
-    txt = open(p).read()
-    for m in re.finditer(r'From\s+PyecoreV\s+Require\s+(?:Import|Export)?\s*([^.]*(?:\.[A-Za-z_][\w.]*)*)\.', txt):
-        pass
-    for line in re.findall(r'(?:From\s+PyecoreV\s+)?Require\s+(?:Import|Export)\s+([^\n]*?)\.\s*(?:\n|$)', txt):
+    txt = re.sub(r'\(\*.*?\*\)', ' ', open(p).read(), flags=re.S)
+    # a Require statement ends at a '.' followed by white space; module names contain dots; may span lines
+    for line in re.findall(r'(?:From\s+PyecoreV\s+)?Require\s+(?:Import|Export)?\s*(.*?)\.(?=\s|$)', txt, flags=re.S):
         for name in line.split():
             name = name.replace('PyecoreV.', '')
             cand = name.replace('.', '/') + '.v'
